@@ -13,13 +13,13 @@ def main(tier, seed):
             for inner in (1, 2):
                 # thorough: every service order up to 2 list elements; 3 elements under FIFO and LIFO (the orders of 6+ simultaneously open acts explode)
                 for pol in (pols if (tier == "quick" or n <= 2) else ("fifo", "lifo")):
-                    jobs.append(("props.gen", "generated", ("C16", mode, n, inner, pol, 60 if tier == "quick" else 1500)))
+                    jobs.append(("props.gen", "generated", ("C16", mode, n, inner, pol, 60 if tier == "quick" else 400)))
     for outer in ("parallel", "sequence"):
         for inner in ("parallel", "sequence"):
             jobs.append(("props.gen", "nested", ("C16", outer, inner, "fifo", 20)))
     for on in ("step", "workflow", "act", "step-block", "step-generator"):
         for pol in pols:
-            jobs.append(("props.gen", "hooks", ("C16", on, pol, 60 if tier == "quick" else 2000)))
+            jobs.append(("props.gen", "hooks", ("C16", on, pol, 60 if tier == "quick" else 500)))
     c.run_jobs(jobs)
     return c.finish(
         rule="generators: one run per (mode, list length, acts per group, schedule class, completion order of open acts); group counts, simultaneity, order, ($index, $value) per group, "
